@@ -17,4 +17,5 @@ for d in sorted(glob.glob(f"/verif/seeded/{pref}-*")):
             det.append(c + ": " + ", ".join(f"`{k['key']}` x{k['count']}" for k in r["keys"][:2]))
         elif c == m["property"]:
             det.append(c + ": not reported")
-    print(f"| {m['id']} | {m['property']} | {title} | {'; '.join(det)} |")
+    ident = m['id'] + (f" ({m['status']})" if m.get('status') else "") + (" (carried over to the repaired code)" if os.path.exists(os.path.join(d, "patch.orig.diff")) else "")
+    print(f"| {ident} | {m['property']} | {title} | {'; '.join(det)} |")
